@@ -4,7 +4,8 @@
    passes the two halves through phase 1 again); on the unrepaired code the aspect-ratio
    clause is false (C11_halving_alone_refuted; 1x1 die, limit 1.5, n = 2). *)
 From FrameModel Require Import Num.QcTac Geometry.Rect Refine.Phase1 Refine.Phase1Facts
-  Refine.Phase2 Refine.Phase2Facts Refine.DieRefine Refine.DieFacts Refine.GridFacts Refine.PermFacts.
+  Refine.Phase2 Refine.Phase2Facts Refine.DieRefine Refine.DieFacts Refine.GridFacts Refine.PermFacts
+  Refine.DieOps Refine.DieOpsFacts Cases.CmpC11.
 From Coq Require Import Permutation.
 Open Scope list_scope.
 Open Scope Qc_scope.
@@ -181,3 +182,68 @@ Theorem C11_die_split_example :
              die_split_ok unit_die (qc 3 2) 2 d' = true.
 Proof. exact die_split_example. Qed.
 Print Assumptions C11_die_split_example.
+
+(* ---- histories: any sequence of operations on ONE Die object (Refine/DieOps.v) ---- *)
+(* one admissible step from a state that tiles the die: the clauses of the property for the
+   r, n (rows, cols) of THAT call, relative to the state the step started from *)
+Theorem C11_step_sound : forall d op out d', die_inv d -> step_ok d op out d' = true ->
+  (bbox d' = bbox d /\ blockages d' = blockages d /\ fixedr d' = fixedr d /\
+   match op, out with
+   | OSplit r n, Returned =>
+       (0 < n)%Z /\ ar_limit < r /\
+       (Z.to_nat n <= List.length (refinable d'))%nat /\
+       Forall (fun c => aspect_ratio c <= r) (refinable d') /\
+       refines (refinable d) (refinable d') /\
+       Forall (fun x => is_ground x = false) (spec d') /\ Forall (fun x => is_ground x = true) (ground d')
+   | OGrid nr nc, Returned =>
+       grid_request_ok d nr nc /\ spec d' = [] /\
+       List.length (ground d') = (Z.to_nat nr * Z.to_nat nc)%nat /\
+       tiles (ground d') (bbox d) /\
+       Forall (fun c => same_attrs (bbox d) c /\ rloc c = NOPOLY) (ground d')
+   | OSplit _ _, Raised | OGrid _ _, Raised => d' = d
+   | ORead, Lists refin fixd => d' = d /\ Permutation (refinable d) refin /\ Permutation (fixedr d) fixd
+   | _, _ => False
+   end) /\
+  die_inv d'.
+Proof. exact step_sound. Qed.
+Print Assumptions C11_step_sound.
+
+(* every prefix of every admissible history, by induction over the list of operations: each step
+   has its own clauses (step_post is the statement of C11_step_sound), the die, the blockages and the
+   fixed regions are those of the start, and the refinable regions together with them still tile
+   the die - whatever was called before, in whatever order *)
+Theorem C11_history_sound : forall d0 tr, die_inv d0 -> trace_ok d0 tr = true ->
+  Forall (fun s : DieSt * event =>
+            let '(prev, (op, out, next)) := s in
+            step_post prev op out next /\ die_inv next /\
+            bbox next = bbox d0 /\ blockages next = blockages d0 /\ fixedr next = fixedr d0 /\
+            tiles (refinable next ++ blockages d0 ++ fixedr d0) (bbox d0))
+         (steps d0 tr).
+Proof. exact history_sound. Qed.
+Print Assumptions C11_history_sound.
+
+Theorem C11_history_prefix : forall d tr1 tr2,
+  trace_ok d (tr1 ++ tr2) = trace_ok d tr1 && trace_ok (final d tr1) tr2.
+Proof. exact trace_ok_app. Qed.
+Print Assumptions C11_history_prefix.
+
+(* the model's own run (largest-first, first maximum) is defined for every list of operations on
+   a die with at least one refinable region, never runs out of fuel, and is an admissible history *)
+Theorem C11_run_ops_ok : forall ops d, die_inv d /\ refinable d <> [] ->
+  exists tr, run_ops d ops = Ok tr /\ trace_ok d tr = true /\ map (fun e : event => fst (fst e)) tr = ops.
+Proof. exact run_ops_ok. Qed.
+Print Assumptions C11_run_ops_ok.
+
+(* what the correspondence evaluates on the state the constructor left *)
+Theorem C11_die_inv_b_sound : forall d, die_inv_b d = true -> die_inv d.
+Proof. exact die_inv_b_sound. Qed.
+Print Assumptions C11_die_inv_b_sound.
+
+(* non-vacuity, and the history on which a remembered aspect ratio goes stale: 10 x 10 die,
+   split(2, 1), read, initial_grid(1, 5), split(2, 5), read: twenty cells of aspect ratio <= 2 *)
+Theorem C11_stale_history :
+  exists tr, run_ops die10 ops_stale = Ok tr /\ trace_ok die10 tr = true /\
+    List.length (refinable (final die10 tr)) = 20%nat /\
+    forallb (fun c => Qcleb (aspect_ratio c) (qc 2 1)) (refinable (final die10 tr)) = true.
+Proof. exact stale_history. Qed.
+Print Assumptions C11_stale_history.
